@@ -73,7 +73,7 @@ def main(tier, seed):
     # ---- behaviour of the module written for schemas/py_beh.exp: values of DERIVE attributes (nested - / * + ** DIV MOD),
     # WHERE rules, and which values the attribute setters accept (every simple type, defined types, enumeration, aggregates)
     BEH_DERIVE = {"remaining": 14.0, "left_nested": 10.0, "share": 5.0, "prod": 200.0, "mixed": 1.0, "grouped": 10.0, "powr": 81.0,
-                  "neg": -5.0, "idiv": 2.0, "imod": 1.0, "chain": 15.0}
+                  "neg": -5.0, "idiv": 2.0, "imod": 1.0, "chain": 15.0, "total_kw": 11.0}
     BEH_SET = {("remaining", "derived"): "refuse",
                ("closed", "bool"): "accept", ("closed", "real"): "refuse", ("closed", "string"): "refuse", ("closed", "none"): "refuse",
                ("locked", "bool"): "accept", ("locked", "none"): "accept", ("locked", "int"): "refuse",
@@ -128,8 +128,8 @@ def main(tier, seed):
         else:
             hist["behaviour_probes"] += 1
     evals += 1
-    if seen_beh < len(BEH_DERIVE) + 2 + len(BEH_SET) and not any(l.startswith("ERR") for l in op_.split("\n")):
-        res.violation("the behaviour probe printed %d observations, %d expected: %s" % (seen_beh, len(BEH_DERIVE) + 2 + len(BEH_SET), (op_ + ep)[-300:]),
+    if seen_beh < len(BEH_DERIVE) + 3 + len(BEH_SET) and not any(l.startswith("ERR") for l in op_.split("\n")):
+        res.violation("the behaviour probe printed %d observations, %d expected: %s" % (seen_beh, len(BEH_DERIVE) + 3 + len(BEH_SET), (op_ + ep)[-300:]),
                       {"input_file": bexp}, found_input=False)
 
     def save(name, text):
